@@ -16,7 +16,7 @@ def one(c):
             return {'ok': sf.decoder(c[1])}
         return {'ok': sf.encoder(c[1], strict=c[2])}
     except Exception as e:   # noqa
-        return {'err': type(e).__name__}
+        return {'err': type(e).__name__, 'msg': str(e)}     # the text too: a message that quotes another call's input is an observation of it
 
 
 def main():
